@@ -204,6 +204,7 @@ var stdlog = &logSink{}
 type SigTriple struct{ Key, Msg, Sig []byte }
 
 type World struct {
+	CloseErr error // what the last Close() of the server returned
 	Dir     string
 	S       *server.GCAServer
 	Temp    Key
@@ -303,7 +304,7 @@ func (w *World) Close() (panicked string) {
 					panicked = fmt.Sprint(e)
 				}
 			}()
-			w.S.Close()
+			w.CloseErr = w.S.Close()
 		}()
 		if panicked != "" {
 			// CheckInvariants panicked before anything was stopped: stop the threads anyway
